@@ -371,6 +371,15 @@ def reader_inputs(rng: random.Random, tier: str, encoded: dict):
         b = struct.pack(">q", v)
         for fn in ("read_timedelta_i64", "read_datetime_i64", "read_nullable_datetime_i64", "read_int64"):
             out.append((fn, b))
+    # legacy length prefixes with the sign bit set (other than -1), followed by as many bytes as the
+    # prefix would mean if it were read unsigned
+    for fn in ("read_legacy_string", "read_nullable_legacy_string"):
+        for pref in (0x8000, 0x8001, 0xFFFE, 0xC000):
+            out.append((fn, pref.to_bytes(2, "big") + b"a" * pref))
+            out.append((fn, pref.to_bytes(2, "big") + b"a" * 10))
+    for fn in ("read_legacy_bytes", "read_nullable_legacy_bytes"):
+        for pref in (0x80000000, 0xFFFFFFFE, 0xFFFF0000):
+            out.append((fn, pref.to_bytes(4, "big") + b"a" * 70000))
     # random bytes for everything
     names = list(readers_table())
     for _ in range(3000 if not thorough else 30000):
